@@ -236,11 +236,7 @@ def relation_axioms():
 def register_exchange(reg):
     time_of = lambda ctx, i: ctx.get(i, "_time")
 
-    def all_set(ctx, i):
-        k = z3.Const(sv.uid("ak"), sv.StrS)
-        m = meta_of(ctx, i)
-        return And(Not(is_none(grid_of(ctx, i))), ref_or0(grid_of(ctx, i)) > 0,
-                   z3.ForAll([k], Implies(m.dom(k), Not(is_none(m.val(k))))), m.dom(UNITS_KEY))
+    all_set = ALL_SET
 
     # ---- IOutput.get_info as seen from the consumer side (Output.get_info verified above refines it; adapters: C07.4)
     reg.field("$delivered_info", TRef("Info"))
@@ -280,23 +276,42 @@ def register_exchange(reg):
         k = z3.Const(sv.uid("cw"), sv.StrS)
         o = z3.Int(sv.uid("co"))
         mr, ms = meta_of(ctx, r.e), meta_of(c0, me)
-        given = (lambda kk: And(rest.dom(kk), Not(is_none(rest.val(kk))))) if rest is not None else (lambda kk: z3.BoolVal(False))
+        use_none = ctx.use_none.e
+        # explicitly named meta keywords (e.g. units=...) next to the **meta dictionary
+        named = {kn: kv for kn, kv in kw.items() if kn not in ("time", "grid", "mask", "$kwargs", "use_none")}
+        taken = lambda v: Or(use_none, Not(is_none(v)))          # a value is taken over unless it is None and use_none is off
+
+        def given(kk):
+            g = And(rest.dom(kk), taken(rest.val(kk))) if rest is not None else z3.BoolVal(False)
+            for kn, kv in named.items():
+                g = Or(g, And(kk == sv.const_str(kn).e, taken(kv)))
+            return g
+
+        def given_val_eq(kk):
+            """the copy's value under key kk is the given one"""
+            e = sv.value_eq(mr.val(kk), rest.val(kk)) if rest is not None else z3.BoolVal(True)
+            for kn, kv in named.items():
+                e = If(kk == sv.const_str(kn).e, sv.value_eq(mr.val(kk), kv), e)
+            return e
+
         parts = [r.e > 0, r.e != me,
-                 If(is_none(t_kw), sv.value_eq(ctx.get(r.e, "_time"), c0.get(me, "_time")), sv.value_eq(ctx.get(r.e, "_time"), t_kw)),
-                 If(is_none(g_kw), sv.value_eq(grid_of(ctx, r.e), grid_of(c0, me)), sv.value_eq(grid_of(ctx, r.e), g_kw)),
-                 If(is_none(m_kw), sv.value_eq(mask_of(ctx, r.e), mask_of(c0, me)), sv.value_eq(mask_of(ctx, r.e), m_kw)),
+                 If(Not(taken(t_kw)) if "time" in kw else z3.BoolVal(True),
+                    sv.value_eq(ctx.get(r.e, "_time"), c0.get(me, "_time")), sv.value_eq(ctx.get(r.e, "_time"), t_kw)),
+                 If(Not(taken(g_kw)) if "grid" in kw else z3.BoolVal(True),
+                    sv.value_eq(grid_of(ctx, r.e), grid_of(c0, me)), sv.value_eq(grid_of(ctx, r.e), g_kw)),
+                 If(Not(taken(m_kw)) if "mask" in kw else z3.BoolVal(True),
+                    sv.value_eq(mask_of(ctx, r.e), mask_of(c0, me)), sv.value_eq(mask_of(ctx, r.e), m_kw)),
                  z3.ForAll([k], And(mr.dom(k) == Or(ms.dom(k), given(k)),
-                                    Implies(mr.dom(k), If(given(k), sv.value_eq(mr.val(k), rest.val(k)) if rest is not None else z3.BoolVal(True),
-                                                          sv.value_eq(mr.val(k), ms.val(k)))))),
+                                    Implies(mr.dom(k), If(given(k), given_val_eq(k), sv.value_eq(mr.val(k), ms.val(k)))))),
                  # nothing else changes
                  z3.ForAll([o], Implies(o != r.e, And(sv.value_eq(grid_of(ctx, o), grid_of(c0, o)), sv.value_eq(ctx.get(o, "_time"), c0.get(o, "_time")),
                                                       sv.value_eq(mask_of(ctx, o), mask_of(c0, o)), same_meta(ctx, o, c0, o))))]
         return And(*parts)
 
     reg.add(Contract(f"{INFO}.copy_with", self_cls="Info", params={"use_none": Bool}, verify=False, result_fn=cw_result,
+                     defaults={"use_none": sv.SBool(z3.BoolVal(True))},
                      modifies=lambda ctx: [(None, f) for f in ("_grid", "_time", "_mask", "meta")], ensures=cw_post,
-                     requires=lambda ctx: Not(ctx.use_none.e),
-                     note="assumed: a new Info; requested non-None values override the copied ones (use_none=False), the mask is copied"))
+                     note="assumed (covered by the bounded stand-in bnd_info.py): a new Info; a keyword overrides the copied value unless it is None and use_none is off"))
 
     # ---- Input.exchange_info
     def ii(ctx):
@@ -357,6 +372,14 @@ def register_exchange(reg):
 # =================================================================================================
 # Adapter.exchange_info / get_info, TimeDelayAdapter.get_info (C07.4)
 # =================================================================================================
+def ALL_SET(ctx, i):
+    """no unset field: grid set, every meta value set, units present"""
+    k = z3.Const(sv.uid("ak"), sv.StrS)
+    m = meta_of(ctx, i)
+    return And(Not(is_none(grid_of(ctx, i))), ref_or0(grid_of(ctx, i)) > 0,
+               z3.ForAll([k], Implies(m.dom(k), Not(is_none(m.val(k))))), m.dom(UNITS_KEY))
+
+
 def register_adapter_info(reg):
     AD = "finam.sdk.adapter"
     MODS = lambda ctx: [(None, f) for f in ("_grid", "_time", "meta", "_mask", "_out_infos_exchanged", "_output_info", "_input_info",
@@ -373,7 +396,8 @@ def register_adapter_info(reg):
     def ex_post(ctx, r):
         a = ctx.self
         out_i, in_i = ctx.get(a, "_output_info"), ctx.get(a, "_input_info")
-        return And(r.e > 0, Not(is_none(out_i)), strip_none(out_i).e == r.e, Not(is_none(in_i)), strip_none(in_i).e == r.e)
+        return And(r.e > 0, Not(is_none(out_i)), strip_none(out_i).e == r.e, Not(is_none(in_i)), strip_none(in_i).e == r.e,
+                   ALL_SET(ctx, r.e))       # what the source delivered has no unset field
 
     pre = lambda ctx: Not(is_none(ctx.get(ctx.self, "_source")))
     R = {"FinamNoDataError": lambda ctx: z3.BoolVal(True), "FinamMetaDataError": lambda ctx: z3.BoolVal(True)}
